@@ -14,6 +14,8 @@ const (
 func checkC02(c *Ctx) {
 	c.R.NotCover = append(c.R.NotCover, "that the bytes handed on equal the bytes received (value property)", "behaviour under ring wrap beyond the copy discipline", "exactly-once across duplicate PUBLISH and duplicate PUBREL sequences as a history property (needs the queue's functional behaviour, C13)")
 	c.useRules(ruleP2, ruleP3, ruleP5)
+	c.useRules(ruleP9)
+	c.sessionQueuesWriteOnce()
 	r := c.Roles()
 	if !c.Need("message handler (type switch over message.Message)", r.Handler, "handler cases", r.Cases, "ring writer", r.RingWrite, "hand-over (retain + fan-out)", r.HandOver, "release loop (consumer of Ackqueue.Acked)", r.Release) {
 		return
